@@ -396,3 +396,168 @@ def stale_after_call(fn, call, reads_field):
             if any(isinstance(tr, dict) and v in T.vars_in(tr) for tr in trees):
                 out.append((v, m))
     return out
+
+
+def size_shape(fn, e, depth=2):
+    """spelling-independent shape of a size expression: fields by (record, field), locals resolved to their
+    single definition, helper-copy suffixes dropped, commutative operands sorted, a factor of 1 dropped"""
+    e = T.strip(e)
+    if not isinstance(e, dict):
+        return ("?",)
+    k = e.get("k")
+    if k == "cast":
+        return size_shape(fn, e.get("e"), depth)
+    if k == "i":
+        return ("c", e.get("c"))
+    if k == "m":
+        lf = T.last_field(e)
+        return ("f",) + tuple(lf) if lf else ("?",)
+    if k == "v":
+        if depth > 0 and e.get("s") == "l":
+            defs = [n for n in fn.events("S") if T.path(n.ev["lhs"]) == e["n"] and n.ev.get("o") == "="]
+            if len(defs) == 1 and defs[0].ev.get("rhs") is not None:
+                return size_shape(fn, defs[0].ev["rhs"], depth - 1)
+        return ("v", e["n"].split("@")[0])
+    if k == "b":
+        l, r = size_shape(fn, e.get("l"), depth), size_shape(fn, e.get("r"), depth)
+        if e.get("o") == "*":
+            ops = sorted(x for x in (l, r) if x != ("c", 1))
+            if len(ops) == 1:
+                return ops[0]
+            return ("*",) + tuple(ops)
+        if e.get("o") == "+":
+            return ("+",) + tuple(sorted((l, r)))
+        return (e.get("o"), l, r)
+    return ("?", T.pp(e)[:40])
+
+
+def buffer_key(e, fn=None):
+    """identity of a buffer expression: (record, field) of a member, or function and base name of a variable"""
+    e = T.strip(e)
+    while isinstance(e, dict) and e.get("k") in ("cast",) or (isinstance(e, dict) and e.get("k") == "u" and e.get("o") == "&"):
+        e = T.strip(e.get("e"))
+    lf = T.last_field(e)
+    if lf:
+        return tuple(lf)
+    p = T.path(e)
+    return ("var", fn.name if fn else "", p.split("@")[0]) if p else None
+
+
+ALLOCATORS = {"ext2fs_get_mem": (None, 0, 1), "ext2fs_get_memzero": (None, 0, 1), "ext2fs_get_array": (0, 1, 2),
+              "ext2fs_get_arrayzero": (0, 1, 2)}
+
+
+def buffer_clear_agreement(fns, writers):
+    """for every memset(buf, 0, len) on a buffer that is also written out by one of `writers`
+    ({callee: (buffer argument, length argument)}) or allocated in these functions:
+    -> [(fn, node, buffer key, clear shape, [accepted shapes])]"""
+    allocs, writes, clears = {}, {}, []
+    for f in fns:
+        for n in f.call_nodes():
+            for cn in T.call_names(n.ev["x"]):
+                if cn in ALLOCATORS:
+                    ia, ib, ip = ALLOCATORS[cn]
+                    key = buffer_key(arg(n, ip), f)
+                    if key is None:
+                        continue
+                    sb = size_shape(f, arg(n, ib))
+                    if ia is not None:
+                        sa = size_shape(f, arg(n, ia))
+                        ops = sorted(x for x in (sa, sb) if x != ("c", 1))
+                        sb = ops[0] if len(ops) == 1 else ("*",) + tuple(ops)
+                    allocs.setdefault(key, set()).add(sb)
+                elif cn in writers:
+                    ib, il = writers[cn]
+                    key = buffer_key(arg(n, ib), f)
+                    if key is not None:
+                        writes.setdefault(key, set()).add(size_shape(f, arg(n, il)))
+                elif cn == "memset" and T.const(arg(n, 1)) == 0:
+                    key = buffer_key(arg(n, 0), f)
+                    if key is not None:
+                        clears.append((f, n, key, size_shape(f, arg(n, 2))))
+    out = []
+    for f, n, key, sh in clears:
+        acc = writes.get(key, set()) | allocs.get(key, set())
+        if writes.get(key):
+            out.append((f, n, key, sh, sorted(acc, key=repr)))
+    return out
+
+
+def wrap_points(fn, c):
+    """end-of-block nodes whose condition is `c >= X` and whose true branch subtracts from c (a ring wrap)"""
+    out = []
+    for bid, b in fn.blocks.items():
+        t = b.get("t")
+        if not t or not isinstance(t.get("c"), dict):
+            continue
+        cond = T.strip(t["c"])
+        if isinstance(cond, dict) and cond.get("k") == "b" and cond.get("o") in (">=", ">") and T.path(cond.get("l")) == c:
+            s = b.get("s", [])
+            if s and s[0] in fn.blocks and any(ev["e"] == "S" and ev.get("o") == "-=" and T.path(ev["lhs"]) == c
+                                               for ev in fn.blocks[s[0]].get("ev", [])):
+                out.append(fn.block_end(bid))
+    return out
+
+
+def ring_cursor_uses(fn, consumers, consumer_arg):
+    """Ring-cursor discipline inside one function.  Cursors are the variables that have a ring wrap in fn and the
+    variables handed to `consumers` (callee names) at argument `consumer_arg` that take their value from one.  For every advance (`c++`, `c += n`,
+    `c = c + n`) of a cursor: each later use of c - as the consumer's argument, copied into another variable, passed by
+    address, or left in *c at function exit - must lie behind a wrap of c.
+    -> [(advance node, cursor, offending use node or None)]"""
+    def mentions(e, c):
+        return any(T.path(x) == c for x in T.walk(e) if isinstance(x, dict) and x.get("k") in ("v", "u", "m"))
+    cursors = set()
+    for bid, b in fn.blocks.items():
+        t = b.get("t")
+        if t and isinstance(t.get("c"), dict):
+            cond = T.strip(t["c"])
+            if isinstance(cond, dict) and cond.get("k") == "b" and T.path(cond.get("l")) and wrap_points(fn, T.path(cond["l"])):
+                cursors.add(T.path(cond["l"]))
+    # variables handed to the consumer that take their value from a ring cursor
+    handed = {T.path(arg(n, consumer_arg)) for n in calls_to(fn, *consumers)} - {None}
+    grew = True
+    while grew:
+        grew = False
+        for n in fn.events("S"):
+            l = T.path(n.ev["lhs"])
+            if l in handed and l not in cursors and n.ev.get("rhs") is not None and any(mentions(n.ev["rhs"], c) for c in cursors):
+                cursors.add(l)
+                grew = True
+    byref = {T.path(n.ev["lhs"]) for n in fn.events("S")
+             if isinstance(T.strip(n.ev["lhs"]), dict) and T.strip(n.ev["lhs"]).get("k") == "u" and T.strip(n.ev["lhs"]).get("o") == "*"}
+    out = []
+    for c in sorted(cursors):
+        wp = wrap_points(fn, c)
+        adv = []
+        for n in fn.events("S"):
+            if T.path(n.ev["lhs"]) != c:
+                continue
+            o = n.ev.get("o")
+            if o in ("++", "+=") or (o == "=" and n.ev.get("rhs") is not None and mentions(n.ev["rhs"], c)):
+                adv.append(n)
+        uses = []
+        for n in fn.events():
+            if n.ev["e"] == "C":
+                a = n.ev["x"].get("a", [])
+                if is_call(n, *consumers) and consumer_arg < len(a) and mentions(a[consumer_arg], c):
+                    uses.append(n)
+                elif any(isinstance(T.strip(x), dict) and T.strip(x).get("k") == "u" and T.strip(x).get("o") == "&" and
+                         T.path(T.strip(x).get("e")) == c for x in a):
+                    uses.append(n)
+            elif n.ev["e"] == "S" and T.path(n.ev["lhs"]) != c and n.ev.get("o") == "=" and n.ev.get("rhs") is not None \
+                    and mentions(n.ev["rhs"], c) and T.path(n.ev["lhs"]) in cursors:
+                uses.append(n)
+        if c in byref:
+            uses.append(fn.exit_node())
+        for a_ in adv:
+            bad = None
+            for u in uses:
+                # `v = c++` reads c before the advance recorded just ahead of it
+                if u.ev and u.ev["e"] == "S" and u.bid == a_.bid and u.idx == a_.idx + 1 and u.line == a_.line:
+                    continue
+                if not fn.must_pass_after(a_, wp, to=[u]):
+                    bad = u
+                    break
+            out.append((a_, c, bad))
+    return out
